@@ -1,20 +1,34 @@
 import TaskModel.Output.Lemmas
+import TaskModel.Output.AcceptLemmas
 import TaskModel.Gen.Output
 /-!
 # C17 — Grouped and prefixed output is never torn, lost or duplicated
 
 Theorems about the writer state machines of `TaskModel.Output` for every byte string,
-every chunking into writes, and every interleaving of the writers' atomic sink blocks.
+every chunking into writes, every interleaving of the chunks of the several producers of ONE
+command (stdout / stderr of a pipeline's stages, background jobs), and every interleaving of the
+writers' sink writes — composed down to the bytes of the shared stream (`C17_compose_*`).
+The acceptors the driver runs are sound for `Shuffle` (`C17_accepts_sound`, exact:
+`C17_accepts_complete`; `C17_acceptsPW_sound`, `C17_acceptsGW_sound`).
 Tie: correspondence domain `output` drives the real `internal/output` writers (through
-`verifhook/export`) with the same chunkings, single-threaded and concurrently, and
-compares the exact sequence of sink writes; generated facts `Gen.Output` pin the
-mutex region of `prefixWriter.writeLine` and the single sink write of `groupWriter.close`.
+`verifhook/export`) with the same chunkings, single-threaded, with several producer goroutines on
+one writer, and concurrently with raw (interleaved-style) writers in between, and compares the
+exact sequence of sink writes; domain `outputexec` runs the real Executor (group / prefixed,
+parallel deps, failing / ignored / cancelled commands, templated prefix / begin / end, blocks
+larger than a pipe) into one recording sink.  Generated facts `Gen.Output` pin: `Write` and
+`close` of both writers hold the writer's own mutex; `writeLine` and `groupWriter.close` perform
+exactly ONE sink write; `runCommand` wraps once per command and calls the closer once, after the
+command, with the command's error.
+Assumption (C-C17-own-stderr): Task's own log lines go to file descriptor 2 and command output to
+file descriptor 1; when both are the same terminal or pipe (`2>&1`), the kernel orders whole
+`write` calls of the two descriptors but may split one larger than the pipe capacity — outside
+the model (one sink object whose `Write` is atomic).
 -/
 namespace Props.C17
 open TaskModel.Output
 
 /-- buffer invariant of the prefixed writer: the buffered remainder has no newline -/
-theorem write_buff_noNl (w : PW) (p : Bytes) (h : nl ∉ w.buff) : nl ∉ (w.write p).1.buff := by
+theorem write_buff_noNl (w : PW) (p : Bytes) (_h : nl ∉ w.buff) : nl ∉ (w.write p).1.buff := by
   simp only [PW.write]
   exact (takeLines_spec (w.buff ++ p) [] (by simp)).1
 
@@ -42,58 +56,59 @@ theorem C17_prefixed (pre : Bytes) (chunks : List Bytes) :
     ({ prefix_ := pre } : PW).run chunks = linesOf chunks.flatten := by
   simpa using C17_prefixed_lines { prefix_ := pre } chunks (by simp)
 
-/-- **No byte lost or duplicated, lines whole.** The emitted lines concatenate to the
-input (plus the one newline that terminates a final partial line), each emitted line
-ends with a newline and contains no other newline. -/
+/-- **No byte lost or duplicated, lines whole.** Every emitted line ends with a newline and contains no
+other; the emitted lines concatenate to the input exactly when the input is empty or ends with a newline,
+and to the input plus ONE newline (terminating the final partial line at close) otherwise. -/
 theorem C17_prefixed_bytes (bs : Bytes) :
     (∀ l ∈ linesOf bs, ∃ body, l = body ++ [nl] ∧ nl ∉ body) ∧
-    ((linesOf bs).flatten = bs ∨ (linesOf bs).flatten = bs ++ [nl]) := by
+    (linesOf bs).flatten = if bs = [] ∨ bs.getLast? = some nl then bs else bs ++ [nl] := by
   obtain ⟨h1, h2, h3⟩ := takeLines_spec bs [] (by simp)
   simp only [List.reverse_nil, List.nil_append] at h2
   simp only [linesOf]
   split
   · rename_i hr
     rw [hr, List.append_nil] at h2
-    exact ⟨h3, .inl h2⟩
-  · refine ⟨?_, .inr ?_⟩
+    refine ⟨h3, ?_⟩
+    have hc : bs = [] ∨ bs.getLast? = some nl := by
+      rcases List.eq_nil_or_concat (takeLines bs []).1 with hl | ⟨init, l, hl⟩
+      · left; rw [← h2, hl]; rfl
+      · right
+        obtain ⟨body, hb, _⟩ := h3 l (by rw [hl]; simp)
+        rw [← h2, hl, hb]
+        simp [← List.append_assoc]
+    rw [if_pos hc, h2]
+  · rename_i hr
+    refine ⟨?_, ?_⟩
     · intro l hl
       simp only [List.mem_append, List.mem_singleton] at hl
       rcases hl with hl | rfl
       · exact h3 l hl
       · exact ⟨_, rfl, h1⟩
-    · simp only [List.flatten_append, List.flatten_cons, List.flatten_nil, List.append_nil]
+    · have hc : ¬ (bs = [] ∨ bs.getLast? = some nl) := by
+        rintro (hb | hb)
+        · subst hb; exact hr rfl
+        · rw [← h2, List.getLast?_append] at hb
+          cases hg : (takeLines bs []).2.getLast? with
+          | none => exact hr (List.getLast?_eq_none_iff.mp hg)
+          | some x =>
+            rw [hg] at hb
+            simp only [Option.some_or, Option.some.injEq] at hb
+            exact h1 (hb ▸ List.mem_of_getLast? hg)
+      rw [if_neg hc]
+      simp only [List.flatten_append, List.flatten_cons, List.flatten_nil, List.append_nil]
       rw [← List.append_assoc, h2]
 
-/-- every emitted sink block carries the task's prefix: `[prefix] line` -/
-theorem C17_prefix_carried (pre line : Bytes) : ∃ rest, lineBlock pre line = [91] ++ pre ++ rest ∧ rest = [93, 32] ++ line :=
-  ⟨_, by simp [lineBlock], rfl⟩
+example : (linesOf [97, 10, 98]).flatten = [97, 10, 98, 10] ∧ (linesOf [97, 10]).flatten = [97, 10] ∧ (linesOf []).flatten = [] := by decide
 
 /-! ## group -/
-
-theorem foldl_write_buff (g : GW) (chunks : List Bytes) :
-    (chunks.foldl GW.write g).buff = g.buff ++ chunks.flatten ∧
-    (chunks.foldl GW.write g).begin_ = g.begin_ ∧ (chunks.foldl GW.write g).end_ = g.end_ ∧
-    (chunks.foldl GW.write g).errorOnly = g.errorOnly := by
-  induction chunks generalizing g with
-  | nil => simp
-  | cons p ps ih =>
-    simp only [List.foldl_cons, List.flatten_cons]
-    obtain ⟨a, b, c, d⟩ := ih (g.write p)
-    exact ⟨by rw [a]; simp [GW.write], by rw [b]; rfl, by rw [c]; rfl, by rw [d]; rfl⟩
 
 /-- **Group content.** The block is `begin ++ bytes ++ end`, written iff the command wrote
 something and (not `error_only`, or the command failed) — for every chunking. -/
 theorem C17_group_content (b e : Bytes) (eo : Bool) (chunks : List Bytes) (failed : Bool) :
     ({ begin_ := b, end_ := e, errorOnly := eo } : GW).run chunks failed =
       if (eo && !failed) || chunks.flatten = [] then [] else [b ++ chunks.flatten ++ e] := by
-  obtain ⟨h1, h2, h3, h4⟩ := foldl_write_buff { begin_ := b, end_ := e, errorOnly := eo } chunks
-  simp only [GW.run, GW.close, h1, h2, h3, h4, List.nil_append]
-  by_cases hq : (eo && !failed) = true
-  · simp [hq]
-  · simp only [hq, Bool.false_eq_true, if_false, Bool.false_or]
-    by_cases hz : chunks.flatten = []
-    · simp [hz]
-    · simp [hz]
+  rw [GW.run_eq]
+  simp
 
 /-- **Group contiguity.** A command contributes at most ONE sink write, so no other
 command's output can land inside its block, in any interleaving. -/
@@ -233,21 +248,253 @@ theorem C17_interleave_project {β : Type} (pre post : List (List (Nat × β))) 
     apply h1
     simp [List.filter_append, hpre, hpost]
 
+/-! ## tagged sequences: the projection of an interleaving to one of them -/
+
+theorem tag_filter_ne (k i : Nat) (s : List Bytes) (h : k ≠ i) :
+    (s.map (fun b => (k, b))).filter (fun b => decide (b.1 = i)) = [] := by
+  induction s with
+  | nil => rfl
+  | cons x xs ih => simp [h, ih]
+
+theorem tag_filter_eq (k : Nat) (s : List Bytes) :
+    (s.map (fun b => (k, b))).filter (fun b => decide (b.1 = k)) = s.map (fun b => (k, b)) := by
+  induction s with
+  | nil => rfl
+  | cons x xs ih => simp [ih]
+
+theorem tagFrom_filter_lt (k i : Nat) (seqs : List (List Bytes)) (h : i < k) :
+    ((tagFrom k seqs).map (fun s => s.filter (fun b => decide (b.1 = i)))).filter (fun s => !s.isEmpty) = [] := by
+  induction seqs generalizing k with
+  | nil => rfl
+  | cons s rest ih =>
+    simp only [tagFrom, List.map_cons]
+    rw [tag_filter_ne k i s (by omega)]
+    simp only [List.filter_cons, List.isEmpty_nil, Bool.not_true, Bool.false_eq_true, if_false]
+    exact ih (k + 1) (by omega)
+
+theorem tagFrom_filter_at (k j : Nat) (seqs : List (List Bytes)) (c : List Bytes) (h : seqs[j]? = some c) :
+    ((tagFrom k seqs).map (fun s => s.filter (fun b => decide (b.1 = k + j)))).filter (fun s => !s.isEmpty) =
+      if c = [] then [] else [c.map (fun b => (k + j, b))] := by
+  induction seqs generalizing k j with
+  | nil => simp at h
+  | cons s rest ih =>
+    cases j with
+    | zero =>
+      simp only [List.getElem?_cons_zero, Option.some.injEq] at h
+      subst h
+      simp only [tagFrom, List.map_cons, Nat.add_zero]
+      rw [tag_filter_eq k s]
+      simp only [List.filter_cons]
+      rw [tagFrom_filter_lt (k + 1) k rest (by omega)]
+      cases s <;> simp
+    | succ j =>
+      simp only [List.getElem?_cons_succ] at h
+      simp only [tagFrom, List.map_cons]
+      rw [tag_filter_ne k (k + (j + 1)) s (by omega)]
+      simp only [List.filter_cons, List.isEmpty_nil, Bool.not_true, Bool.false_eq_true, if_false]
+      have := ih (k + 1) j h
+      rw [show k + 1 + j = k + (j + 1) by omega] at this
+      exact this
+
+/-- **Projection.** In ANY interleaving of tagged sequences, the elements tagged `i` are exactly sequence `i`, in
+its order: nothing of it is lost, duplicated or reordered, whatever the others do. -/
+theorem C17_project (seqs : List (List Bytes)) (out : List (Nat × Bytes)) (h : Shuffle (tagFrom 0 seqs) out)
+    (i : Nat) (c : List Bytes) (hi : seqs[i]? = some c) :
+    (out.filter (fun b => decide (b.1 = i))).map Prod.snd = c := by
+  have hf := shuffle_filter (fun b => decide (b.1 = i)) _ _ h
+  obtain ⟨h0, h1⟩ := shuffle_single _ _ hf
+  have := tagFrom_filter_at 0 i seqs c hi
+  simp only [Nat.zero_add] at this
+  by_cases hc : c = []
+  · rw [if_pos hc] at this
+    rw [h0 this, hc]; rfl
+  · rw [if_neg hc] at this
+    rw [h1 _ this]
+    simp [List.map_map, Function.comp_def]
+
+example : tagFrom 0 [[[1], [2]], [[3]]] = [[(0, [1]), (0, [2])], [(1, [3])]] := by decide
+
+/-! ## several producers on one writer (stdout and stderr of a pipeline's stages, background jobs)
+
+`Write` and `close` hold the writer's mutex (`output_facts_ok`), so the producers' chunks reach the writer one
+at a time, in SOME interleaving `s` of their chunk sequences. -/
+
+/-- **Prefixed, several producers.** For EVERY interleaving of the producers' chunk sequences the emitted lines
+are exactly the lines of the interleaved byte stream (whole relative to that stream, none lost or duplicated),
+the stream consists of exactly the producers' chunks, and each producer's chunks are in it in its own order. -/
+theorem C17_multi_producer_prefixed (pre : Bytes) (prods : List (List Bytes)) (ts : List (Nat × Bytes))
+    (h : Shuffle (tagFrom 0 prods) ts) :
+    ({ prefix_ := pre } : PW).run (ts.map Prod.snd) = linesOf (ts.map Prod.snd).flatten ∧
+    (ts.map Prod.snd).length = (prods.map List.length).sum ∧
+    ∀ i c, prods[i]? = some c → (ts.filter (fun b => decide (b.1 = i))).map Prod.snd = c := by
+  refine ⟨C17_prefixed pre _, ?_, fun i c hi => C17_project prods ts h i c hi⟩
+  have := shuffle_length _ _ (shuffle_map Prod.snd _ _ h)
+  rw [tagFrom_untag] at this
+  simpa using this
+
+/-- **Group, several producers.** For every interleaving the one block is `begin ++ stream ++ end`. -/
+theorem C17_multi_producer_group (b e : Bytes) (eo failed : Bool) (prods : List (List Bytes)) (ts : List (Nat × Bytes))
+    (h : Shuffle (tagFrom 0 prods) ts) :
+    ({ begin_ := b, end_ := e, errorOnly := eo } : GW).run (ts.map Prod.snd) failed =
+      (if (eo && !failed) || (ts.map Prod.snd).flatten = [] then [] else [b ++ (ts.map Prod.snd).flatten ++ e]) ∧
+    ∀ i c, prods[i]? = some c → (ts.filter (fun b => decide (b.1 = i))).map Prod.snd = c :=
+  ⟨C17_group_content b e eo _ failed, fun i c hi => C17_project prods ts h i c hi⟩
+
+/-- non-vacuity: two producers whose chunks alternate; the line is that of the interleaved stream -/
+example : Shuffle (tagFrom 0 [[[97], [10]], [[98, 10]]]) [(0, [97]), (1, [98, 10]), (0, [10])] :=
+  interleaves_sound _ _ (by decide)
+example : ({ prefix_ := [112] } : PW).run [[97], [98, 10], [10]] = [[97, 98, 10], [10]] := by decide
+
+/-- what the driver accepts for a writer with several producers is what the writer emits for SOME interleaving -/
+theorem C17_acceptsPW_sound (pre : Bytes) (prods : List (List Bytes)) (sink : List Bytes)
+    (h : acceptsPW pre (chunkCount prods + 1) { prefix_ := pre } prods sink = true) :
+    ∃ s, Shuffle prods s ∧ sink = (linesOf s.flatten).map (lineBlock pre) := by
+  obtain ⟨s, hs, he⟩ := acceptsPW_sound pre _ _ prods sink h
+  exact ⟨s, hs, by rw [he, C17_prefixed]⟩
+
+theorem C17_acceptsGW_sound (b e : Bytes) (eo failed : Bool) (prods : List (List Bytes)) (sink : List Bytes)
+    (h : acceptsGW { begin_ := b, end_ := e, errorOnly := eo } prods failed sink = true) :
+    ∃ s, Shuffle prods s ∧ sink = if (eo && !failed) || s.flatten = [] then [] else [b ++ s.flatten ++ e] := by
+  obtain ⟨s, hs, he⟩ := acceptsGW_sound _ prods failed sink h
+  exact ⟨s, hs, by rw [he, C17_group_content]⟩
+
+example : acceptsPW [112] 4 { prefix_ := [112] } [[[97], [10]], [[98, 10]]] [[91, 112, 93, 32, 97, 98, 10], [91, 112, 93, 32, 10]] = true := by decide
+example : acceptsPW [112] 4 { prefix_ := [112] } [[[97], [10]], [[98, 10]]] [[91, 112, 93, 32, 97, 10]] = false := by decide
+example : acceptsGW { begin_ := [60], end_ := [62] } [[[97], [99]], [[98]]] false [[60, 97, 98, 99, 62]] = true := by decide
+example : acceptsGW { begin_ := [60], end_ := [62] } [[[97], [99]], [[98]]] false [[60, 99, 98, 97, 62]] = false := by decide
+
+/-! ## composition down to the bytes of the shared stream -/
+
+/-- **Composition.** Writers `ws` (any mix of prefixed, group and raw ones — a raw writer is a task with
+`interactive: true` or Task's own log lines), each with its input, write to one sink whose `Write` is atomic:
+`out` is ANY interleaving of their write sequences.  Then the writes of writer `i` found in the sink are exactly
+the writes the model prescribes for it, in order. -/
+theorem C17_compose_project (ws : List Writer) (out : List (Nat × Bytes))
+    (h : Shuffle (tagFrom 0 (ws.map Writer.blocks)) out) (i : Nat) (w : Writer) (hi : ws[i]? = some w) :
+    (out.filter (fun b => decide (b.1 = i))).map Prod.snd = w.blocks :=
+  C17_project _ out h i w.blocks (by simp [hi])
+
+/-- prefixed writer `i`: its sink writes are `[prefix] line` for exactly the lines of its input, whatever its
+chunking (`chunks` may itself be any interleaving of several producers' chunks: `C17_multi_producer_prefixed`) -/
+theorem C17_compose_prefixed (ws : List Writer) (out : List (Nat × Bytes))
+    (h : Shuffle (tagFrom 0 (ws.map Writer.blocks)) out) (i : Nat) (pre : Bytes) (chunks : List Bytes)
+    (hi : ws[i]? = some (.p pre chunks)) :
+    (out.filter (fun b => decide (b.1 = i))).map Prod.snd = (linesOf chunks.flatten).map (lineBlock pre) := by
+  rw [C17_compose_project ws out h i _ hi]
+  simp [Writer.blocks, C17_prefixed]
+
+theorem filter_singleton_split {α : Type} (p : α → Bool) (l : List α) (x : α) (h : l.filter p = [x]) :
+    ∃ a c, l = a ++ x :: c ∧ (∀ y ∈ a ++ c, p y = false) := by
+  obtain ⟨a, c, hl, ha, _, hc⟩ := List.filter_eq_cons_iff.mp h
+  refine ⟨a, c, hl, ?_⟩
+  intro y hy
+  rcases List.mem_append.mp hy with hy | hy
+  · simpa using ha y hy
+  · simpa using (List.filter_eq_nil_iff.mp hc) y hy
+
+/-- **Group block: contiguous, exactly once, in the byte stream.** If command `i` wrote something (and the block is
+due: not `error_only`, or the command failed), the sink — as a sequence of writes AND as a sequence of bytes — is
+`before ++ (begin ++ bytes ++ end) ++ after`, where neither `before` nor `after` contains a write of command `i`:
+nothing of another command lies inside the block, and nothing of command `i` lies outside it. -/
+theorem C17_compose_group (ws : List Writer) (out : List (Nat × Bytes))
+    (h : Shuffle (tagFrom 0 (ws.map Writer.blocks)) out) (i : Nat) (b e : Bytes) (eo failed : Bool) (chunks : List Bytes)
+    (hi : ws[i]? = some (.g b e eo failed chunks)) (hdue : (eo && !failed) = false) (hne : chunks.flatten ≠ []) :
+    ∃ before after, out = before ++ (i, b ++ chunks.flatten ++ e) :: after ∧
+      (∀ x ∈ before ++ after, x.1 ≠ i) ∧
+      (out.map Prod.snd).flatten =
+        (before.map Prod.snd).flatten ++ (b ++ chunks.flatten ++ e) ++ (after.map Prod.snd).flatten := by
+  have hp := C17_compose_project ws out h i _ hi
+  simp only [Writer.blocks, C17_group_content, hdue, Bool.false_or, hne, decide_false, Bool.false_eq_true, if_false] at hp
+  -- the filtered list has one element, whose tag is i
+  have hlen : (out.filter (fun x => decide (x.1 = i))).length = 1 := by
+    have := congrArg List.length hp; simpa using this
+  obtain ⟨x, hx⟩ := List.length_eq_one_iff.mp hlen
+  have hx2 : x.2 = b ++ chunks.flatten ++ e := by rw [hx] at hp; simpa using hp
+  have hx1 : x.1 = i := by
+    have : x ∈ out.filter (fun x => decide (x.1 = i)) := by rw [hx]; simp
+    simpa using (List.mem_filter.mp this).2
+  obtain ⟨before, after, hl, hno⟩ := filter_singleton_split _ out x hx
+  have hxe : x = (i, b ++ chunks.flatten ++ e) := by cases x; simp_all
+  refine ⟨before, after, by rw [hl, hxe], ?_, ?_⟩
+  · intro y hy; simpa using hno y hy
+  · rw [hl, hxe]; simp
+
+/-- a group block that is not due (`error_only` and the command succeeded) or is empty leaves no trace -/
+theorem C17_compose_group_silent (ws : List Writer) (out : List (Nat × Bytes))
+    (h : Shuffle (tagFrom 0 (ws.map Writer.blocks)) out) (i : Nat) (b e : Bytes) (eo failed : Bool) (chunks : List Bytes)
+    (hi : ws[i]? = some (.g b e eo failed chunks)) (hs : (eo && !failed) = true ∨ chunks.flatten = []) :
+    ∀ x ∈ out, x.1 ≠ i := by
+  have hp := C17_compose_project ws out h i _ hi
+  have hb : (Writer.g b e eo failed chunks).blocks = [] := by
+    simp only [Writer.blocks, C17_group_content]
+    rcases hs with hs | hs <;> simp [hs]
+  rw [hb] at hp
+  intro x hx hxi
+  have : x ∈ out.filter (fun x => decide (x.1 = i)) := List.mem_filter.mpr ⟨hx, by simpa using hxi⟩
+  have hnil : out.filter (fun x => decide (x.1 = i)) = [] := by simpa using hp
+  rw [hnil] at this; cases this
+
+/-- non-vacuity: a prefixed writer, a group writer and a raw writer; the raw write lands between the two lines of
+the prefixed writer, never inside one, and the group block is whole -/
+example : accepts [.p [112] [[97, 10, 98], [10]], .g [60] [62] false false [[120], [121]], .r [[82]]]
+    [[91, 112, 93, 32, 97, 10], [82], [60, 120, 121, 62], [91, 112, 93, 32, 98, 10]] = true := by decide
+example : accepts [.p [112] [[97, 10, 98], [10]], .r [[82]]]
+    [[91, 112, 93, 32, 97], [82], [10], [91, 112, 93, 32, 98, 10]] = false := by decide
+
+/-- **The driver's acceptor is sound and exact**: it accepts the recorded sink writes iff they are the image of an
+interleaving of the writers' (tagged) write sequences — to which `C17_compose_*` apply. -/
+theorem C17_accepts_sound (ws : List Writer) (sink : List Bytes) (h : accepts ws sink = true) :
+    ∃ out, Shuffle (tagFrom 0 (ws.map Writer.blocks)) out ∧ out.map Prod.snd = sink := accepts_sound ws sink h
+
+theorem C17_accepts_complete (ws : List Writer) (out : List (Nat × Bytes))
+    (h : Shuffle (tagFrom 0 (ws.map Writer.blocks)) out) : accepts ws (out.map Prod.snd) = true := accepts_complete ws out h
+
+/-! ## threads: the commands of one task write one after the other (Executor-level stream) -/
+
+/-- one task activation = a sequence of writers used one after the other (Task's log line of a command — a raw
+write —, then the command's wrapped writer, closed before the next command starts); activations running in
+parallel interleave their writes.  The writes of activation `i` found in the sink are exactly its commands'
+writes, command after command, each command's writes whole and complete. -/
+theorem C17_thread_project (ts : List (List Writer)) (out : List (Nat × Bytes))
+    (h : Shuffle (tagFrom 0 (ts.map threadBlocks)) out) (i : Nat) (t : List Writer) (hi : ts[i]? = some t) :
+    (out.filter (fun b => decide (b.1 = i))).map Prod.snd = (t.map Writer.blocks).flatten :=
+  C17_project _ out h i (threadBlocks t) (by simp [hi])
+
+theorem C17_acceptsThreads_sound (ts : List (List Writer)) (sink : List Bytes) (h : acceptsThreads ts sink = true) :
+    ∃ out, Shuffle (tagFrom 0 (ts.map threadBlocks)) out ∧ out.map Prod.snd = sink := acceptsThreads_sound ts sink h
+
+example : acceptsThreads [[.r [[116, 10]], .g [60] [62] true true [[120]]], [.r [[117, 10]], .g [] [] true false [[121]]]]
+    [[117, 10], [116, 10], [60, 120, 62]] = true := by decide
+
 /-! ## facts regenerated from the source on every run -/
 
-/-- the model's atomicity assumptions, as found in the current source: `writeLine` takes
-the `Prefixed` mutex (released by a deferred `Unlock`) before its four sink writes;
-`groupWriter.close` performs exactly one sink write; `Write` methods never touch the
-sink directly; `Write` flushes complete lines only, `close` flushes the rest. -/
+/-- the model's atomicity assumptions, as found in the current source:
+* `Write` and `close` of BOTH writers take the writer's own mutex as their first statement and release it by a
+  deferred `Unlock` (fix O8-1); that mutex is a field of the writer object; the buffers are touched only by those
+  methods and by `writeOutputLines`, which only `Write` / `close` call — so a writer's `write` / `close` are atomic
+  steps whatever the number of producers;
+* `writeLine` performs exactly ONE sink write (fix O8-2; four before), inside the `Prefixed` mutex (which protects the
+  colour table; it is not what keeps a line whole any more), not in a loop; only `writeOutputLines` calls it;
+  `groupWriter.close` performs exactly one sink write; `Write` methods never touch the sink;
+* `Write` flushes complete lines only, `close` flushes the rest;
+* stdout and stderr of one command go through ONE writer object (the model's single `PW` / `GW`);
+* `runCommand` wraps the streams once, runs the command, and calls the closer exactly once, unconditionally (not in a
+  `defer`, loop or branch), after the command, with the command's error (`failed` = that error is non-nil: also for
+  an `ignore_error` command — the check for it comes later — and for a cancelled one). -/
 theorem output_facts_ok :
-    TaskModel.Gen.Output.writeLineSkeleton = ["deferUnlock", "lock", "write", "write", "write", "write"] ∧
-    TaskModel.Gen.Output.groupCloseSkeleton = ["write"] ∧
-    TaskModel.Gen.Output.groupWriteSkeleton = [] ∧
-    TaskModel.Gen.Output.prefixWriteSkeleton = [] ∧
-    TaskModel.Gen.Output.prefixWriteCalls = ["pw.writeOutputLines(false)"] ∧
-    TaskModel.Gen.Output.prefixCloseCalls = ["pw.writeOutputLines(true)"] ∧
-    -- stdout and stderr of one command go through ONE writer object (the model's single `PW` / `GW`)
-    TaskModel.Gen.Output.prefixedWrapWriters = "same" ∧ TaskModel.Gen.Output.groupWrapWriters = "same" := by decide
+    TaskModel.Gen.Output.prefixWriteSkeleton = ["lock", "deferUnlock"] ∧
+    TaskModel.Gen.Output.prefixCloseSkeleton = ["lock", "deferUnlock"] ∧
+    TaskModel.Gen.Output.groupWriteSkeleton = ["lock", "deferUnlock"] ∧
+    TaskModel.Gen.Output.groupCloseSkeleton = ["lock", "deferUnlock", "write"] ∧
+    TaskModel.Gen.Output.writerMutexFields = ["groupWriter.mutex:sync.Mutex", "prefixWriter.mutex:sync.Mutex"] ∧
+    TaskModel.Gen.Output.buffUsers = ["groupWriter.Write", "groupWriter.close", "prefixWriter.Write", "prefixWriter.writeOutputLines"] ∧
+    TaskModel.Gen.Output.writeOutputLinesCallers = ["prefixWriter.Write", "prefixWriter.close"] ∧
+    TaskModel.Gen.Output.writeLineCallers = ["prefixWriter.writeOutputLines"] ∧
+    TaskModel.Gen.Output.writeLineSkeleton = ["deferUnlock", "lock", "write"] ∧
+    TaskModel.Gen.Output.prefixWriteCalls = ["writeOutputLines(false)"] ∧
+    TaskModel.Gen.Output.prefixCloseCalls = ["writeOutputLines(true)"] ∧
+    TaskModel.Gen.Output.prefixedWrapWriters = "same" ∧ TaskModel.Gen.Output.groupWrapWriters = "same" ∧
+    TaskModel.Gen.Output.runCommandSkeleton = ["wrap", "run", "close(runErr)"] := by decide
 
 /-! ## non-vacuity -/
 example : ({ prefix_ := [112] } : PW).run [[97, 98], [10, 99], [100, 10, 101]] = [[97, 98, 10], [99, 100, 10], [101, 10]] := by decide
